@@ -93,4 +93,32 @@ AdssRecover(shares) ==
                    c == Sid(DefaultT, f.thr, M, R)     \* recover() always uses the default transcript
                IN IF Mac(c) = f.J THEN [ok |-> TRUE, sid |-> c] ELSE [ok |-> FALSE, why |-> "mac"]
 
+---------------------------------------------------------------------------
+(* What the properties demand of ANY recover (C01, C02, C05, C16), as a contract on its   *)
+(* outcome — independent of which shares an implementation chooses to interpolate.         *)
+(* AdssRecover above is the code-shaped reference; MC_Star checks that it meets the        *)
+(* contract in every explored state, and conformance of the real code is judged against    *)
+(* the contract (agreement with the reference is reported, not demanded).                  *)
+(*   orig[i]    the sharing the i-th share was produced by                                 *)
+(*   genuine[i] its point (x, y) is still the one its producer computed                    *)
+(*   intact[i]  nothing in it was altered                                                  *)
+GenuinePoints(shares, orig, genuine, s) ==
+  {shares[i].x : i \in {j \in 1..Len(shares) : orig[j] = s /\ genuine[j]}}
+\* recovery MAY succeed (and then must return the first share's sharing): the first share —
+\* the one that supplies threshold, ciphertexts and tag — is intact, was made under the
+\* default transcript with a threshold >= 1, and that many distinct genuine points of its
+\* sharing are present
+CanRecover(shares, orig, genuine, intact) ==
+  /\ shares # <<>>
+  /\ intact[1]
+  /\ SidThr(orig[1]) >= 1 /\ SidT(orig[1]) = DefaultT
+  /\ Cardinality(GenuinePoints(shares, orig, genuine, orig[1])) >= SidThr(orig[1])
+\* recovery MUST succeed: in addition every share is intact and stems from that one sharing
+MustRecover(shares, orig, genuine, intact) ==
+  /\ CanRecover(shares, orig, genuine, intact)
+  /\ \A i \in 1..Len(shares) : intact[i] /\ orig[i] = orig[1]
+MeetsContract(o, shares, orig, genuine, intact) ==
+  /\ o.ok => CanRecover(shares, orig, genuine, intact) /\ o.sid = orig[1]
+  /\ MustRecover(shares, orig, genuine, intact) => o.ok
+
 =============================================================================
